@@ -209,10 +209,12 @@ class Engine:
                 return V(kind, NULL)
             if isinstance(kind, Opt):
                 return V(kind, kind.sort().none)
+        if type(val).__name__ == "VEmptySet" and isinstance(kind, SetK):
+            return V(kind, z3.EmptySet(kind.elem.sort()))
         if isinstance(val, VDict) and isinstance(kind, Map):
             t = kind.mk(z3.K(kind.key.sort(), z3.BoolVal(False)),
                         z3.Const(fresh_name("emptyval"), z3.ArraySort(kind.key.sort(), kind.val.sort())),
-                        z3.Empty(z3.SeqSort(kind.key.sort())))
+                        Seq(kind.key).empty())
             for k, v in val.items.items():
                 if isinstance(k, tuple):
                     k, v = v
@@ -221,10 +223,7 @@ class Engine:
                 t = self.models.map_store(kind, t, self.coerce(k, kind.key, st).term, self.coerce(v, kind.val, st).term)
             return V(kind, t)
         if isinstance(val, (VList, VTuple)) and isinstance(kind, Seq):
-            if not val.items:
-                return V(kind, z3.Empty(kind.sort()))
-            units = [z3.Unit(self.coerce(x, kind.elem, st).term) for x in val.items]
-            return V(kind, z3.Concat(*units) if len(units) > 1 else units[0])
+            return V(kind, kind.from_terms([self.coerce(x, kind.elem, st).term for x in val.items]))
         if isinstance(val, (VList, VTuple)) and isinstance(kind, SetK):
             t = z3.EmptySet(kind.elem.sort())
             for x in val.items:
@@ -349,15 +348,17 @@ class Engine:
             if isinstance(k, Ref):
                 return v.term != NULL
             if isinstance(k, Seq):
-                return z3.Length(v.term) > 0
+                return k.len(v.term) > 0
             if isinstance(k, SetK):
                 return v.term != z3.EmptySet(k.elem.sort())
             if isinstance(k, Map):
-                return z3.Length(k.keys(v.term)) > 0
+                return Seq(k.key).len(k.keys(v.term)) > 0
             if isinstance(k, Opt):
                 inner = V(k.base, k.sort().get(v.term))
                 return z3.And(k.sort().is_some(v.term), self.truth(inner, st))
         if isinstance(v, VNone):
+            return z3.BoolVal(False)
+        if type(v).__name__ == "VEmptySet":
             return z3.BoolVal(False)
         if isinstance(v, (VTuple, VList)):
             return z3.BoolVal(len(v.items) > 0)
@@ -368,6 +369,14 @@ class Engine:
         raise Untranslatable(f"truth value of {v!r}")
 
     def eq(self, a, b, st=None):
+        if type(a).__name__ == "VEmptySet":
+            a, b = b, a
+        if type(b).__name__ == "VEmptySet":
+            if type(a).__name__ == "VEmptySet":
+                return z3.BoolVal(True)
+            if isinstance(a, V) and isinstance(a.kind, SetK):
+                return a.term == z3.EmptySet(a.kind.elem.sort())
+            return z3.BoolVal(False)
         if isinstance(a, VNone) and isinstance(b, VNone):
             return z3.BoolVal(True)
         if isinstance(a, VNone):
@@ -387,6 +396,10 @@ class Engine:
                 return a.term == z3.ToReal(b.term)
             if a.kind == INT and b.kind == REAL:
                 return z3.ToReal(a.term) == b.term
+            if isinstance(a.kind, Seq) and isinstance(b.kind, Seq) and a.term.sort() == b.term.sort():
+                if a.term.eq(b.term):
+                    return z3.BoolVal(True)
+                return a.kind.equal(a.term, b.term)
             if a.term.sort() == b.term.sort():
                 return a.term == b.term
             if a.kind == BOOL and b.kind == INT:
@@ -398,10 +411,13 @@ class Engine:
             if type(a) is not type(b) or len(a.items) != len(b.items):
                 return z3.BoolVal(False)
             return z3.And([self.eq(x, y, st) for x, y in zip(a.items, b.items)] or [z3.BoolVal(True)])
-        if isinstance(a, V) and isinstance(a.kind, Seq) and isinstance(b, (VList,)):
-            return a.term == self.coerce(b, a.kind, st).term
-        if isinstance(b, V) and isinstance(b.kind, Seq) and isinstance(a, (VList,)):
-            return b.term == self.coerce(a, b.kind, st).term
+        if isinstance(a, (VList, VTuple)) and isinstance(b, V) and isinstance(b.kind, Seq):
+            a, b = b, a
+        if isinstance(a, V) and isinstance(a.kind, Seq) and isinstance(b, (VList, VTuple)):
+            conj = [a.kind.len(a.term) == len(b.items)]
+            for i, x in enumerate(b.items):
+                conj.append(self.eq(V(a.kind.elem, a.kind.at(a.term, i)), x, st))
+            return z3.And(conj)
         if isinstance(a, V) and isinstance(a.kind, SetK) and isinstance(b, (VList, VTuple)):
             return a.term == self.coerce(b, a.kind, st).term
         if isinstance(a, VClass) and isinstance(b, VClass):
@@ -507,13 +523,15 @@ class Engine:
                 else:
                     flat.append(it)
             kind = None
-            sets = [s for s in sets if not (isinstance(s, (VList, VTuple)) and not s.items)]
+            from .models import VEmptySet as _VE
+            sets = [s for s in sets if not ((isinstance(s, (VList, VTuple)) and not s.items) or isinstance(s, _VE))]
             for s in sets:
                 s2 = self.as_set(s, st1)
                 kind = s2.kind
             if kind is None:
                 if not flat:
-                    yield st1, VTuple([])
+                    from .models import VEmptySet
+                    yield st1, VEmptySet()
                     continue
                 kind = SetK(flat[0].kind)
             t = z3.EmptySet(kind.elem.sort())
